@@ -37,7 +37,7 @@ fn main() {
         "deep" => statics::deep(rest),
         "samename" => local::run(rest),
         "monotypes" => {
-            for t in mono::MONO_TYPES {
+            for t in mono::MONO_TYPES.iter().chain(mono::SLICE_TYPES) {
                 println!("{t}");
             }
         }
